@@ -203,8 +203,11 @@ def _fault_worker(item):
         if delivered:
             h.faults = {}
             h.delivered = []
+            if backend == 'local':
+                h.jitter = 0.001        # (threads the failed call may have left behind get their chance between this call's seeks and reads)
             with env.quiet():
                 out2 = invoke(r, op, a, fc)
+            h.jitter = 0.0
             retry = judge(fc, out2, answers[ci], [], op, a)
         later = later_calls(fc, backend, faults, op, a) if delivered else None
         with env.quiet():
@@ -406,7 +409,10 @@ def replay(run, rep):
         if rep['clause'].startswith('C17.retry-after-fault'):
             h.faults = {}
             h.delivered = []
+            if case['backend'] == 'local':
+                h.jitter = 0.001
             with env.quiet():
                 out = invoke(r, case['op'], case['args'], fc)
+            h.jitter = 0.0
             ok, detail = judge(fc, out, ans, [], case['op'], case['args'])
     run.check(ok, rep['clause'], case, detail, None)
